@@ -181,4 +181,37 @@ theorem getJumpCondition_eq_jmpTaken (a b : Int) :
        by_cases h1 : a < b <;> by_cases h2 : a = b <;> simp [h1, h2] <;> omega)
 
 
+theorem wrapS8 (x : Int) (h : 0 ≤ x ∧ x < 256) : wrapS 32 (wrapS 8 x) = if x < 128 then x else x - 256 := by
+  have e7 : (2:Int)^(8-1) = 128 := by decide
+  have e8 : (2:Int)^8 = 256 := by decide
+  have e31 : (2:Int)^(32-1) = 2147483648 := by decide
+  have e32 : (2:Int)^32 = 4294967296 := by decide
+  unfold wrapS
+  rw [e7, e8, e31, e32]
+  split <;> omega
+
+theorem signedLE1 (p : UInt8) : signedLE [p] = if (p.toNat : Int) < 128 then (p.toNat : Int) else (p.toNat : Int) - 256 := by
+  have e7 : (2:Int)^(8*1-1) = 128 := by decide
+  have e8 : (2:Int)^(8*1) = 256 := by decide
+  simp only [signedLE, leNat, List.length_singleton, e7, e8]
+  simp
+
+set_option maxRecDepth 20000 in
+/-- **calcJumpOffset_short.** The 1-byte form of `Context.CalcJumpOffset` computes the specification's `jumpTarget`:
+ip + the signed operand byte, accepted iff the result lies in [0, len]. -/
+theorem calcJumpOffset_short (p : UInt8) (ip size : Nat) (u ci : Int) :
+    (match jumpTarget size ip [p] with
+     | .ok t => vmCalcJumpOffset 1 p.toNat ip size u ci = ((t : Int), signedLE [p], "ok")
+     | .error _ => vmCalcJumpOffset 1 p.toNat ip size u ci = (0, 0, "err")) := by
+  have hp : p.toNat < 256 := UInt8.toNat_lt p
+  have hw : wrapS 32 (wrapS 8 (p.toNat : Int)) = signedLE [p] := by
+    rw [wrapS8 _ (by omega), signedLE1]
+  unfold jumpTarget vmCalcJumpOffset
+  simp only [hw]
+  generalize signedLE [p] = s
+  by_cases hb : ((ip : Int) + s < 0 ∨ (ip : Int) + s > size)
+  · simp [hb]
+  · simp [hb]; omega
+
+
 end NeoModel.Vm.GoTie
